@@ -33,6 +33,9 @@ variable {α β} [DecidableEq α]
 
 @[simp] theorem get_nil (x : α) : get ([] : List (α × β)) x = none := rfl
 
+theorem get_cons (a : α) (b : β) (m : List (α × β)) (x : α) :
+    get ((a, b) :: m) x = if a = x then some b else get m x := rfl
+
 @[simp] theorem get_set_eq (m : List (α × β)) (x : α) (v : β) : get (set m x v) x = some v := by
   induction m with
   | nil => simp [set, get]
